@@ -358,7 +358,7 @@ def hierarchy_on_models(repo: Repo, graph_cls: ClassInfo, modules_param: str, im
             g = graphs[0]
             if g.unreliable:
                 return None, g.unreliable
-            if modules and not g.nodes and not g.edges:
+            if len(modules) + sum(len(_prefixes(m)) for m in modules) >= 2 and not g.nodes and not g.edges:
                 return None, f"nothing reaches the model of the graph for the model input '{label}': the evaluator lost the construction on the way"
             want_nodes = set(modules)
             for m in modules:
